@@ -19,8 +19,8 @@ RULE = ("Interval(**components) rendered under a dialect context and decoded by 
         "negative leading component, quarters and weeks. Non-trivial = at least two non-zero components, or a component whose "
         "decimal text starts/ends with 0, or a negative component; distinct = distinct (components, context) tuple.")
 ASSUMPTIONS = [
-    "the reading of a literal is the field layout 'Y-M-D h:m:s.u' cut to LARGEST..SMALLEST (property statement); "
-    "MySQL's server-side left-justification of short microsecond fields is not modelled",
+    "the reading of a literal is the field layout 'Y-M-D h:m:s.u' cut to LARGEST..SMALLEST (property statement); under the MySQL context "
+    "the last field of an .._MICROSECOND literal is in addition read the way the MySQL server reads it (left-justified to six digits)",
     "negative non-leading components are abs()'d by the constructor and are not generated",
     "dialect templates: PostgreSQL/Redshift/Vertica and default INTERVAL 'e U'; MySQL/Oracle INTERVAL 'e' U (vendor documentation)",
 ]
@@ -120,6 +120,12 @@ def check_components(comp: dict, ctxname: str):
         out.append((mksig("field_values", sh, zclass(vals)), "%r -> %r decoded %r" % (comp, sql, fields)))
     if (sign == "-") != (vals[i] < 0):
         out.append((mksig("sign_lost", LABELS[i] if i == j else "span"), "%r -> %r" % (comp, sql)))
+    if ctxname == "mysql" and j == 6 and i < 6 and fields == want:
+        # MySQL reads the last field of an .._MICROSECOND literal left-justified: '1.5' SECOND_MICROSECOND is 1 s 500000 us
+        # (the server scales a microsecond field shorter than six digits, item_timefunc.cc get_interval_info(.., transform_msec))
+        us_text = body.rsplit(".", 1)[1]
+        if len(us_text) < 6 and int(us_text.ljust(6, "0")) != abs(vals[6]):
+            out.append((mksig("mysql_reading", "microsecond_field_not_six_digits"), "%r -> %r: MySQL reads the microsecond field %r as %d microseconds" % (comp, sql, us_text, int(us_text.ljust(6, "0")))))
     return out
 
 
